@@ -13,6 +13,8 @@ from verif.sim import core
 
 PROPERTY = 'C18'
 ENGINE = 'fs-sim'
+ENV_VARIANTS = ['locale-C-ascii']
+ENV_N = 120
 LEVEL = 'exploration'
 QUICK_S = 40
 THOROUGH_S = 420
